@@ -344,20 +344,20 @@ def handleSolve (toks : List String) : Option String :=
       match Space.fromRestrictions (seqOf seq0) rs with
       | .error e => pure ("space:" ++ spaceErrStr e)
       | .ok sp =>
-        let P : Problem Nat := { seq := seqOf sq, constraints := ← nats? cons, objectives := ← nats? objs,
-                                 space := sp, seqBefore := seqOf sq }
+        let F : Frame Nat := { constraints := ← nats? cons, objectives := ← nats? objs, space := sp, seqBefore := seqOf sq }
+        let s0 := seqOf sq
         let st : St Nat Float := { shared := { focus := focus }, tape := tape }
-        let run : Option (Except Err Unit × Problem Nat × St Nat Float) :=
-          if cmd == "solve.resolve" then some (Solver.resolveConstraints ops sett P st)
-          else if cmd == "solve.optimize" then some (Solver.optimize ops sett P st)
-          else if cmd == "solve.exh_resolve" then some (Solver.resolveExhaustive ops P st)
-          else if cmd == "solve.rnd_resolve" then some (Solver.resolveRandom ops sett P st)
-          else if cmd == "solve.exh_optimize" then some (Solver.optimizeExhaustive ops P st)
-          else if cmd == "solve.rnd_optimize" then some (Solver.optimizeRandom ops sett P st)
+        let run : Option (Except Err Unit × Seq × St Nat Float) :=
+          if cmd == "solve.resolve" then some (Solver.resolveConstraints ops sett F s0 st)
+          else if cmd == "solve.optimize" then some (Solver.optimize ops sett F s0 st)
+          else if cmd == "solve.exh_resolve" then some (Solver.resolveExhaustive ops F s0 st)
+          else if cmd == "solve.rnd_resolve" then some (Solver.resolveRandom ops sett F s0 st)
+          else if cmd == "solve.exh_optimize" then some (Solver.optimizeExhaustive ops F s0 st)
+          else if cmd == "solve.rnd_optimize" then some (Solver.optimizeRandom ops sett F s0 st)
           else none
-        let (r, P', st') ← run
+        let (r, s', st') ← run
         let outcome := match r with | .ok () => "ok" | .error e => errStr e
-        pure s!"{outcome} ; {seqStr P'.seq} ; {joinWith "," (st'.trace.reverse.map seqStr)} ; {tape.length - st'.tape.length}"
+        pure s!"{outcome} ; {seqStr s'} ; {joinWith "," (st'.trace.reverse.map seqStr)} ; {tape.length - st'.tape.length}"
     | _ => none
   | _ => none
 
